@@ -8,7 +8,8 @@ global size_of usize == 8;
 
 pub enum CChar { Char(char), Raw(u64) }
 pub enum IntKind { U8, Other }
-pub enum TypeKind { Int(IntKind), Other }
+pub enum FloatKind { Float16, Float, Double, LongDouble, Float128 }
+pub enum TypeKind { Int(IntKind), Float(FloatKind), Other }
 pub enum ParseError { Recurse, Continue }
 
 // u8::try_from(u64): Ok exactly for values that fit
@@ -19,5 +20,46 @@ pub uninterp spec fn s_char_as_u8(c: char) -> u8;
 #[verifier::external_body] pub fn char_len_utf8(c: char) -> (r: usize) ensures r == s_len_utf8(c) { unimplemented!() }
 #[verifier::external_body] pub fn char_as_u8(c: char) -> (r: u8) ensures r == s_char_as_u8(c) { unimplemented!() }
 pub fn runtime_assert(b: bool) requires b {}
+
+// ---- Var::parse, macro arm: function-like macros never reach the constant evaluator
+#[verifier::external_body] pub struct BindgenContext { _p: core::marker::PhantomData<()> }
+#[verifier::external_body] pub struct MacroVal { _p: core::marker::PhantomData<()> }     // (Vec<u8>, cexpr::expr::EvalResult)
+pub mod clang {
+    #[derive(Clone, Copy)] pub struct Cursor { pub h: usize }
+    pub uninterp spec fn s_fn_like(c: Cursor) -> bool;      // clang_Cursor_isMacroFunctionLike
+    impl Cursor {
+        #[verifier::external_body] pub fn is_macro_function_like(&self) -> (r: bool) ensures r == s_fn_like(*self) { unimplemented!() }
+    }
+}
+// cexpr (plus the clang fallback) on the macro's tokens: cannot tell `#define F(x) -1` from `#define F (x)-1`
+#[verifier::external_body] pub fn parse_macro(ctx: &mut BindgenContext, cursor: &clang::Cursor) -> (r: Option<MacroVal>) { unimplemented!() }
+
+// ---- Var::parse: which variables get their initialiser evaluated as a floating-point constant
+#[verifier::external_body] pub struct Type { _p: core::marker::PhantomData<()> }
+impl Type {
+    pub uninterp spec fn s_kind(&self) -> TypeKind;
+    #[verifier::external_body] pub fn kind(&self) -> (r: &TypeKind) ensures *r == self.s_kind() { unimplemented!() }
+    // Type::is_float(): any floating kind
+    #[verifier::external_body] pub fn is_float(&self) -> (r: bool) ensures r == (self.s_kind() is Float) { unimplemented!() }
+    #[verifier::external_body] pub fn is_integer(&self) -> (r: bool) ensures r == (self.s_kind() is Int) { unimplemented!() }
+}
+
+// the registered parse callbacks (possibly none) and what Var::parse asks them about a macro
+pub enum MacroParsingBehavior { Ignore, Default }
+#[verifier::external_body] pub struct Callback { _p: core::marker::PhantomData<()> }
+impl Callback {
+    #[verifier::external_body] pub fn will_parse_macro(&self, name: &String) -> (r: MacroParsingBehavior) { unimplemented!() }
+    #[verifier::external_body] pub fn as_ref(&self) -> (r: &Callback) { unimplemented!() }
+}
+impl clang::Cursor { #[verifier::external_body] pub fn spelling(&self) -> (r: String) { unimplemented!() } }
+#[verifier::external_body] pub fn handle_function_macro(cursor: &clang::Cursor, callbacks: &Callback) { unimplemented!() }
+// `for callbacks in &ctx.options().parse_callbacks` (rule R13): any number of callbacks, including none
+#[verifier::external_body] pub struct CallbackCursor { _p: core::marker::PhantomData<()> }
+impl CallbackCursor {
+    pub uninterp spec fn remaining(&self) -> nat;
+    #[verifier::external_body] pub fn new(ctx: &BindgenContext) -> (r: CallbackCursor) { unimplemented!() }
+    #[verifier::external_body] pub fn has_next(&self) -> (r: bool) ensures r == (self.remaining() > 0) { unimplemented!() }
+    #[verifier::external_body] pub fn next_item(&mut self) -> (r: &'static Callback) requires old(self).remaining() > 0, ensures final(self).remaining() == old(self).remaining() - 1 { unimplemented!() }
+}
 
 } // verus!
